@@ -344,9 +344,10 @@ Section Instance.
     | [] => Ret acc
     | (x, k) :: r => Ask x k (fun c => ask_all cols r (join cols acc c))
     end.
-  Definition leaf_rows (v : Z) : Z := 1 + v mod 2.
+  (* a spy leaf is one row taller when (version + focus flag) is odd: its height depends on focus *)
+  Definition leaf_rows (v fb : Z) : Z := 1 + (v + fb) mod 2.
   Definition body_i (w v : Z) (k : key) : prog content :=
-    if is_leaf w then Ret (leaf_rows v, [w; v; k mod 2])
+    if is_leaf w then Ret (leaf_rows v (k mod 2), [w; v; k mod 2])
     else ask_all (is_cols w) (kids_of w v k) (0, []).
 
   Fixpoint rask_all (cols : bool) (kids : list (Z * key)) (acc : Z) : rprog :=
@@ -355,7 +356,7 @@ Section Instance.
     | (x, k) :: r => RAsk x k (fun n => rask_all cols r (if cols then Z.max acc n else acc + n))
     end.
   Definition rbody_i (w v : Z) (k : key) : rprog :=
-    if is_leaf w then RRet (leaf_rows v) else rask_all (is_cols w) (kids_of w v k) 0.
+    if is_leaf w then RRet (leaf_rows v (k mod 2)) else rask_all (is_cols w) (kids_of w v k) 0.
   Definition cacheable_i (w : Z) : bool := n_cache (node_of w).
   Definition rows_i (c : content) : Z := fst c.
   Definition rcache_i (w : Z) : bool := match n_kind (node_of w) with KAttr => false | _ => true end.
